@@ -4,7 +4,11 @@
 // conversions Eigen provides between dynamic and fixed-size vectors.
 #ifndef MEXSIM_STANDIN_VECTOR_H
 #define MEXSIM_STANDIN_VECTOR_H
+// (the real Eigen/GTSAM headers pull these in; matlab.h relies on that)
 #include <cstddef>
+#include <cstdint>
+#include <iostream>
+#include <memory>
 #include <vector>
 
 namespace gtsam {
